@@ -216,6 +216,10 @@ def gen_small(rng):
     v, w = rng.choice(vs), rng.choice(vs)
     if r < 0.35:
         lines.insert(rng.randint(0, len(lines)), 'try:\n    %s = %s + 1\nexcept NameError:\n    %s = 0\n    %s = %s + 2\nelse:\n    %s = 5\nfinally:\n    %s = %s' % (v, w, v, w, v, w, v, w))
+    elif r < 0.45:
+        # statements that carry plain lists of names
+        g = rng.choice(['global %s' % v, 'global %s, %s' % (v, w) if v != w else 'global %s' % v])
+        lines.insert(rng.randint(0, len(lines)), 'def bump_%s():\n    %s\n    %s = %s + 1\n    def inner():\n        nonlocal_free = 1\n        return nonlocal_free\n    return inner()' % (v, g, v, v))
     elif r < 0.6:
         lines.insert(rng.randint(0, len(lines)), 'match %s:\n    case 1:\n        %s = 1\n        %s = %s + 1\n    case _:\n        %s = 2\n        for %s in [3]:\n            %s = %s' % (v, w, v, w, v, w, v, w))
     return '\n'.join(lines) + '\n'
